@@ -480,6 +480,91 @@ fn check_live(ctx: &mut Ctx, c: &LiveCase) -> Res {
     Ok(())
 }
 
+/// the real server under an LD_PRELOAD shim that shifts ITS CLOCK_REALTIME by an offset the harness changes while
+/// the server runs: the signed midpoint follows the server's clock at once, in both protocols, on every worker
+#[derive(Debug, Clone, Serialize, Deserialize)]
+pub struct ClockStep {
+    pub workers: u8,
+    /// offsets in seconds, applied one after the other
+    pub offsets: Vec<i64>,
+}
+
+const CLOCKSHIM: &str = "/verif/target/clockshim.so";
+
+fn check_clock_step(ctx: &mut Ctx, c: &ClockStep) -> Res {
+    use crate::proclab::{scratch_dir, ServerProc, SrvCfg};
+    ctx.eval();
+    if !std::path::Path::new(CLOCKSHIM).exists() {
+        ctx.class("c11:clock-step:skipped-no-shim");
+        return Ok(());
+    }
+    let dir = scratch_dir("clk");
+    let file = dir.join("offset");
+    std::fs::write(&file, "0").unwrap();
+    let cfg = SrvCfg {
+        seed_hex: hex(&[0x44u8; 32]),
+        workers: Some(c.workers.max(1) as u64),
+        env_extra: vec![("LD_PRELOAD".into(), CLOCKSHIM.into()), ("CLOCKSHIM_FILE".into(), file.display().to_string())],
+        ..Default::default()
+    };
+    let mut s = match ServerProc::start(&cfg) {
+        Ok(s) => s,
+        Err(e) => {
+            ctx.inconclusive(format!("proclab: {}", e));
+            return Ok(());
+        }
+    };
+    if let Err(e) = s.wait_ready(Duration::from_secs(10)) {
+        ctx.inconclusive(format!("C11 clock-step: server never served: {}", e.chars().take(200).collect::<String>()));
+        return Ok(());
+    }
+    let pk = s.pk.clone();
+    let mut k = 0u64;
+    for (step, off) in std::iter::once(&0i64).chain(c.offsets.iter()).enumerate() {
+        std::fs::write(&file, off.to_string()).unwrap();
+        std::thread::sleep(Duration::from_millis(5));
+        // fresh sockets: the requests spread over the workers
+        for j in 0..(4 * c.workers.max(1) as usize) {
+            let proto = if j % 2 == 0 { Proto::Classic } else { Proto::Ietf };
+            k += 1;
+            let req = crate::proclab::fresh_request(proto, b"c11-step", k);
+            let sock = std::net::UdpSocket::bind("127.0.0.1:0").unwrap();
+            sock.set_read_timeout(Some(Duration::from_secs(3))).unwrap();
+            let t_send = std::time::SystemTime::now().duration_since(std::time::UNIX_EPOCH).unwrap().as_nanos() as i128;
+            let _ = sock.send_to(&req, s.addr());
+            let mut buf = [0u8; 4096];
+            let len = match sock.recv_from(&mut buf) {
+                Ok((l, _)) => l,
+                Err(_) => {
+                    ctx.inconclusive("C11 clock-step: a request went unanswered".to_string());
+                    return Ok(());
+                }
+            };
+            let t_recv = std::time::SystemTime::now().duration_since(std::time::UNIX_EPOCH).unwrap().as_nanos() as i128;
+            let info = match verify_strict(proto, &req, &buf[..len], &pk) {
+                Ok(i) => i,
+                Err(e) => return ctx.fail(format!("clock-step|reply-invalid|{}", e), format!("offset {} s: {}", off, e)),
+            };
+            let unit: i128 = if proto == Proto::Classic { 1_000 } else { 1_000_000_000 };
+            let lo = info.midp as i128 * unit;
+            let shift = *off as i128 * 1_000_000_000;
+            const SLACK: i128 = 1_500_000_000;
+            if lo + unit + SLACK < t_send + shift || lo > t_recv + shift + SLACK {
+                return ctx.fail(
+                    format!("clock-step|midpoint-does-not-follow-the-server-clock|{}", proto.name()),
+                    format!("step {}: the server's clock was set {} s away from the host clock; a {} request sent at host time {} ns got MIDP {} (= {} ns), i.e. {} s away from the server's clock", step, off, proto.name(), t_send, info.midp, lo, (lo - t_send - shift) / 1_000_000_000),
+                );
+            }
+        }
+    }
+    s.signal(libc::SIGTERM);
+    s.wait_exit(Duration::from_secs(5));
+    let _ = std::fs::remove_dir_all(&dir);
+    ctx.class(&format!("c11:clock-step:workers={}:steps={}", c.workers, c.offsets.len()));
+    ctx.nontrivial(&(c.workers, &c.offsets));
+    Ok(())
+}
+
 /// with deliberate faults on, whatever reply still verifies in full states the server clock like any other reply
 #[derive(Debug, Clone, Serialize, Deserialize)]
 pub struct FaultTime {
@@ -559,6 +644,16 @@ pub fn run_c11(ctx: &mut Ctx) -> Vec<Violation> {
         ctx.sample("clock-sequences", 1, c);
         check_clock_seq(ctx, c)
     }));
+    // the server's clock is stepped while it runs
+    {
+        let cases = vec![
+            ClockStep { workers: 1, offsets: vec![3_600, -7_200, 0] },
+            ClockStep { workers: 4, offsets: vec![86_400 * 400, 1] },
+            ClockStep { workers: 2, offsets: vec![-1, 5, -86_400 * 3_000] },
+            ClockStep { workers: 1, offsets: vec![4_102_444_800 - 1_790_000_000] },
+        ];
+        out.extend(run_enum(ctx, "clock-step-real-binary", cases.len() as u64, |i| cases[i as usize].clone(), |ctx, c| check_clock_step(ctx, c)));
+    }
     // fault injection on: replies that still verify must still tell the time
     {
         let n = t.pick(4_000, 40_000);
@@ -647,6 +742,9 @@ fn check_tz(ctx: &mut Ctx, c: &TzCase) -> Res {
 pub fn replay_c11(ctx: &mut Ctx, sub: &str, case: &Value) -> Res {
     if sub == "tz-real-binary" {
         return replay_case::<TzCase, _>(ctx, case, |ctx, c| check_tz(ctx, c));
+    }
+    if sub == "clock-step-real-binary" {
+        return replay_case::<ClockStep, _>(ctx, case, |ctx, c| check_clock_step(ctx, c));
     }
     if sub == "fault-valid-time" {
         install_logger(log::LevelFilter::Off);
